@@ -183,6 +183,8 @@ def build(spec, world=None):
             kw['meta'] = build(spec['meta'], world)
         if spec.get('visual') is not None:
             kw['visual'] = build(spec['visual'], world)
+        if spec.get('origin') is not None:
+            kw['origin'] = build(spec['origin'], world)      # PolygonPixelRegion(vertices, origin=...)
         return cls(**kw)
     if t == 'regions':
         return regions.Regions([])
@@ -464,6 +466,8 @@ def run_real(case):
                     tgt.clear()
                 elif op == 'setidx':
                     tgt[st['idx']] = build(st['val'], world)
+                elif op == 'setslice':
+                    tgt[st['start']:st['start'] + len(st['vals'])] = [build(v, world) for v in st['vals']]
                 elif op == 'skyset':
                     tgt[st['idx']] = SkyCoord(unfl(st['lon']), unfl(st['lat']), unit='deg', frame=tgt.frame)
                 elif op == 'append':
@@ -604,6 +608,9 @@ def to_model_steps(st, real_out):
         m = {'do': 'mut', 'at': at, 'op': op}
         if op == 'extendfrom':
             return [dict(m, src=st['src'])]
+        if op == 'setslice':
+            return [{'do': 'mut', 'at': at, 'op': 'setidx', 'idx': st['start'] + k, 'val': model_val(v)}
+                    for k, v in enumerate(st['vals'])]
         if op == 'update':
             # Meta.update: one __setitem__ per key, in order (it stops at the first invalid key)
             return [{'do': 'mut', 'at': at, 'op': 'set', 'key': k, 'val': model_val(v)} for k, v in st['items']]
@@ -808,6 +815,11 @@ class Gen:
                     v.clear()
                     v.update({'t': 'num', 'v': fl(float(unfl(inner['v'])) * self.rng.choice([1.5, 2.0, 3.25]))})
         spec = {'t': 'region', 'cls': cls, 'params': params}
+        if cls == 'PolygonPixelRegion' and self.rng.random() < 0.5:
+            # vertices given relative to a non-zero origin (the region stores absolute vertices)
+            spec['origin'] = {'t': 'pix', 'x': self.rng.choice([10, -7, 250]), 'y': self.rng.choice([20, -3, 1000])} \
+                if self.rng.random() < 0.5 else \
+                {'t': 'pix', 'x': fl(self.rng.randint(-4000, 4000) / 8.0), 'y': fl(self.rng.randint(-4000, 4000) / 8.0)}
         if cls.startswith('Compound'):
             # meta/visual default to region1's objects (aliasing inside the compound)
             if self.rng.random() < 0.4 and cls == 'CompoundPixelRegion':
@@ -1013,6 +1025,9 @@ class Check(PropertyCheck):
                                     nn = rng.choice([rng.randint(1, 120), rng.randint(1, 120), rng.randint(1, 5000)])
                                     cases.append(self.gen_eq(g, cls, 'unitsweep', rng.choice(qfields + [None]),
                                                              (ua, ub, nn), descend=False))
+                if cls in ('PolygonPixelRegion', 'CompoundPixelRegion'):
+                    for _ in range(12):
+                        cases.append(self.gen_inplace(g, cls))
                 if cls.startswith('Compound'):
                     for _ in range(6):
                         cases.append(self.gen_copy(g, cls, plain=True))
@@ -1183,6 +1198,69 @@ class Check(PropertyCheck):
             prog.append({'do': 'eq', 'a': {'root': 'a', 'path': []}, 'b': {'root': 'b', 'path': []}})
         return {'kind': 'copy', 'how': how, 'cls': cls, 'side': None if bogus else side, 'prog': prog,
                 'changed': [k for k, _ in changes]}
+
+    # -- equality must follow the CURRENT values after any history of comparisons and in-place writes
+    def gen_inplace(self, g, cls):
+        r = g.rng
+        if cls == 'CompoundPixelRegion':
+            spec = g.region(cls)
+            which = r.choice(['region1', 'region2'])
+            set_param(spec, which, g.region('PolygonPixelRegion'))
+            prefix = [which]
+            n = len(get_param(get_param(spec, which), 'vertices')['x'])
+        else:
+            spec = g.region(cls)
+            prefix = []
+            n = len(get_param(spec, 'vertices')['x'])
+        ra, rb = {'root': 'a', 'path': []}, {'root': 'b', 'path': []}
+        prog = [{'do': 'new', 'dst': 'a', 'val': spec}]
+        if r.random() < 0.5:
+            prog.append({'do': 'eq', 'a': ra, 'b': ra})          # an earlier comparison of the original
+        prog.append(r.choice([{'do': 'copy', 'src': ra, 'dst': 'b', 'changes': []},
+                              {'do': 'deepcopy', 'src': ra, 'dst': 'b'}]))
+        expect = {}
+        edits = {'a': {}, 'b': {}}
+
+        def compare():
+            same = edits['a'] == edits['b']
+            for st in ({'do': 'eq', 'a': ra, 'b': rb}, {'do': 'eq', 'a': rb, 'b': ra}, {'do': 'ne', 'a': ra, 'b': rb}):
+                expect[len(prog)] = same if st['do'] == 'eq' else (not same)
+                prog.append(st)
+        compare()
+        for _ in range(r.randint(2, 6)):
+            side = r.choice(['a', 'b'])
+            other = 'b' if side == 'a' else 'a'
+            c = r.choice(['x', 'y'])
+            at = {'root': side, 'path': prefix + ['vertices', c]}
+            if edits[other] != edits[side] and r.random() < 0.4:
+                # bring the two sides back together: replay on this side what the other one has
+                for (cc, i), v in sorted(edits[other].items()):
+                    if edits[side].get((cc, i)) != v:
+                        prog.append({'do': 'mut', 'at': {'root': side, 'path': prefix + ['vertices', cc]},
+                                     'op': 'setidx', 'idx': i, 'val': {'t': 'num', 'v': fl(v)}})
+                        edits[side][(cc, i)] = v
+                for key in [k for k in edits[side] if k not in edits[other]]:
+                    cc, i = key
+                    prog.append({'do': 'mut', 'at': {'root': other, 'path': prefix + ['vertices', cc]},
+                                 'op': 'setidx', 'idx': i, 'val': {'t': 'num', 'v': fl(edits[side][key])}})
+                    edits[other][key] = edits[side][key]
+            elif r.random() < 0.3 and n >= 2:
+                i = r.randrange(n - 1)
+                vals = [5e7 + r.randint(0, 10 ** 6), 5e7 + r.randint(0, 10 ** 6)]
+                prog.append({'do': 'mut', 'at': at, 'op': 'setslice', 'start': i,
+                             'vals': [{'t': 'num', 'v': fl(v)} for v in vals]})
+                edits[side][(c, i)] = vals[0]
+                edits[side][(c, i + 1)] = vals[1]
+            else:
+                i = r.randrange(n)
+                v = 5e7 + r.randint(0, 10 ** 6)        # far from every generated coordinate
+                prog.append({'do': 'mut', 'at': at, 'op': 'setidx', 'idx': i, 'val': {'t': 'num', 'v': fl(v)}})
+                edits[side][(c, i)] = v
+            compare()
+        prog.append({'do': 'snap', 'tag': 'end'})
+        return {'kind': 'inplace', 'how': 'origin' if (spec.get('origin') or any(
+                    isinstance(v, dict) and v.get('origin') for _, v in spec['params'])) else 'plain',
+                'cls': cls, 'side': '-', 'prog': prog, 'expect': {str(k): v for k, v in expect.items()}}
 
     # -- a region against a region of a derived class that agrees on every shared parameter
     def gen_subclass(self, g, base, derived, swap):
@@ -1485,6 +1563,11 @@ class Check(PropertyCheck):
                 set_param(tgt, n, nv)
                 info.update(mode=mode, a=frac(Fraction(x)), b=frac(Fraction(y)))
             elif k == 'pixarr':
+                ta_ = a
+                for pth in path:
+                    ta_ = get_param(ta_, pth)
+                ta_.pop('origin', None)          # the tolerance arithmetic below is on the compared numbers
+                tgt.pop('origin', None)
                 c = r.choice(['x', 'y'])
                 mode = fmode or r.choice(['rel', 'inside', 'outside', 'band', 'count', 'count'])
                 if mode == 'count':
@@ -2018,6 +2101,14 @@ class Check(PropertyCheck):
             if expect is False and ab is not False:
                 bad('eq_misses_difference', f'{what}/{info.get("mode")}/{info.get("field", info.get("key"))}: '
                     f'expected unequal, a==b {ab}', mode=info.get('mode'), na=info.get('na'), nb=info.get('nb'))
+        if case['kind'] == 'inplace':
+            for k, want in case['expect'].items():
+                got = out[int(k)]
+                if got != want:
+                    st = prog[int(k)]
+                    bad('eq_stale', f'step {k}: {st["do"]} {st["a"]["root"]},{st["b"]["root"]} answered {got}, but the '
+                        f'current values of the two regions are {"the same" if want == (st["do"] == "eq") else "different"} '
+                        f'(after in-place writes into the vertex arrays)')
         if case['kind'] == 'indep':
             victim = case['side']
             for nm, same in obs.get('unchanged', {}).items():
